@@ -35,6 +35,7 @@ type RegexInfo struct {
 	Err       string
 	Tiles     int // n > 0: pattern is ^(g1)..(gn)$, the groups tile the subject
 	GroupFixed map[int][]byteSet // mandatory top-level groups of fixed width: their byte classes
+	Middle    *byteSet // pattern is <Prefix><one byte class repeated><Suffix>: every byte in between is in the class
 }
 
 func hasCapture(re *syntax.Regexp) bool {
@@ -276,20 +277,38 @@ func (w *World) regexInfo(lit string) *RegexInfo {
 	for _, e := range elems {
 		ri.MinLen += minLen(e)
 	}
+	pe := 0
 	for _, e := range elems {
 		bs, ok := fixedBytes(e)
 		if !ok {
 			break
 		}
 		ri.Prefix = append(ri.Prefix, bs...)
+		pe++
 	}
-	for i := len(elems) - 1; i >= 0; i-- {
+	se := 0
+	for i := len(elems) - 1; i >= pe; i-- {
 		bs, ok := fixedBytes(elems[i])
 		if !ok {
 			break
 		}
 		for j := len(bs) - 1; j >= 0; j-- {
 			ri.Suffix = append(ri.Suffix, bs[j])
+		}
+		se++
+	}
+	if pe == len(elems) {
+		// the whole pattern has a fixed width: Prefix describes all of it
+		ri.Suffix = nil
+	}
+	// T2: exactly one element between the fixed prefix and the fixed suffix, and it repeats
+	// one byte class: every byte between prefix and suffix of a full match is in that class
+	if pe+se == len(elems)-1 {
+		m := elems[pe]
+		if (m.Op == syntax.OpPlus || m.Op == syntax.OpStar || (m.Op == syntax.OpRepeat && m.Max == -1)) && len(m.Sub) == 1 {
+			if bs, ok := fixedBytes(m.Sub[0]); ok && len(bs) == 1 {
+				ri.Middle = &bs[0]
+			}
 		}
 	}
 	return ri
@@ -618,6 +637,10 @@ func (ri *RegexInfo) spanFacts(m string) string {
 	}
 	for i, bs := range ri.Suffix {
 		fs = append(fs, byteSetTerm(bs, fmt.Sprintf("(at %s (- (slen %s) %d))", m, m, i+1)))
+	}
+	if ri.Middle != nil {
+		fs = append(fs, fmt.Sprintf("(forall ((zzi Int)) (! (=> (and (<= %d zzi) (< zzi (- (slen %s) %d))) %s) :pattern ((select (chars %s) zzi))))",
+			len(ri.Prefix), m, len(ri.Suffix), byteSetTerm(*ri.Middle, fmt.Sprintf("(select (chars %s) zzi)", m)), m))
 	}
 	return and(fs...)
 }
